@@ -393,6 +393,14 @@ def run(ctx: Ctx) -> None:
                             "overlap detection: with a sibling that sorts before the overlapping pair (`/a` next to `/m`, `/m/x`) only the first group is searched and the overlap is accepted")
     rep.floor("C11.R10", n10, 10)
 
+    # ---- R11: the stack of calls is handed down as the stack of calls ----
+    from .common import kinds_not_confused
+    rep.rule("C11.R11", "both passes hand each kind of value to the parameter of its kind (mypy): the stack of canonical paths that the cycle test consults is passed "
+                        "as `call_stack`, never as the list of local names (and vice versa)")
+    n11 = kinds_not_confused(ctx, "C11.R11", ("dds.introspect", "dds._introspect_indirect", "dds._retrieve_objects", "dds.structures_utils", "dds._api"),
+                             "a descent that receives an empty stack never finds its callee on it: a cycle through this call is analysed for ever (RecursionError instead of CIRCULAR_CALL)")
+    rep.floor("C11.R11", n11, 3)
+
     # ---- R9: both passes resolve every name of the module ----
     from .c01 import dismiss_rule
     rep.rule("C11.R9", "as C01.R6: the resolver dismisses a name only after it was not found in the module's namespace (a module-level `eval` imported "
